@@ -47,12 +47,19 @@ J_segment(e) ==
        ELSE IF Len(frames) = 1 THEN J_one(frames[1], e, d2)
        ELSE "ok"
 
+\* Beyond the listed properties (check E04, VERIF_EXTRA=1): an assembler that implements RawReadTracer is told every
+\* non-empty read with exactly the bytes read, before those bytes are handed to ReceiveRead
+Extra == IOEnv.VERIF_EXTRA = "1"
+J_traced(e) ==
+    IF e.tap /\ ~e.panic /\ e.traced # e.bytes THEN "extra:raw-read-tracer-not-told-exactly-the-bytes-of-the-read" ELSE "ok"
+
 Known(v, e) ==
     IF v # "ok" /\ Dev_Len2_NotModbus(streams[e.conn], delivered[e.conn] + Len(e.bytes), e.out) THEN "known:C15-F1" ELSE v
 
 Judge(e) ==
     CASE e.ev = "reset" -> "ok"
-      [] e.ev = "segment" -> IF e.conn \notin DOMAIN streams THEN "unknown-connection" ELSE IF dead[e.conn] THEN "ok" ELSE Known(J_segment(e), e)
+      [] e.ev = "segment" -> IF e.conn \notin DOMAIN streams THEN "unknown-connection" ELSE IF dead[e.conn] THEN "ok"
+                             ELSE LET v == Known(J_segment(e), e) IN IF v = "ok" /\ Extra THEN J_traced(e) ELSE v
       [] e.ev = "leave" -> "ok"
       [] e.ev = "other" -> IF e.ok THEN "ok" ELSE "other-connection-disturbed"
       [] e.ev = "race" -> "data-race-in-library-code-between-connections"
